@@ -338,7 +338,8 @@ def _c15_tie(src, v, problems):
     m = F.Module(src, 'pyramid/view.py')
     fn = m.find('_find_views')
     try:
-        prog, vt = T15.translate_lookup(fn)
+        res = T15.translate_lookup(fn)          # (program, view types[, ...]): C15's API may carry more
+        prog, vt = res[0], res[1]
         if prog != T15.DEFAULT_LOOKUP or vt != ['IView', 'ISecuredView', 'IMultiView']:
             problems.append('_find_views: translates (C15 translator) to another program: %s %s' % (T15.coq_prog(prog), vt))
     except Exception as e:
